@@ -82,6 +82,7 @@ FAMILIES["mode"] = {
 }
 
 PROPS = {
+    "C09": {"custom": "funcheck"},
     "C02": {"families": ["mode", "fault", "data"]},
     "C01": {"families": ["data", "gen"]},
     "C03": {"families": ["gen", "life"]},
